@@ -218,7 +218,21 @@ func init() {
 			return nil, true
 		},
 		"vxYield": func(fr *frame, a []value) (value, bool) {
-			fr.i.sched.yield(fr, always)
+			sc := fr.i.sched
+			if sc.preemptBound >= 0 && sc.preemptions >= sc.preemptBound {
+				return nil, true // preemption budget used up: the goroutine runs on to its next blocking point
+			}
+			before := sc.switches
+			sc.yield(fr, always)
+			if sc.switches != before {
+				sc.preemptions++
+			}
+			return nil, true
+		},
+		"vxPreemptBound": func(fr *frame, a []value) (value, bool) {
+			// at most n preemptive switches (at vxYield) from now on; n < 0 lifts the bound
+			fr.i.sched.preemptBound = int(asInt64(a[0]))
+			fr.i.sched.preemptions = 0
 			return nil, true
 		},
 		"vxIdleWait": func(fr *frame, a []value) (value, bool) {
@@ -659,6 +673,28 @@ func init() {
 	// ---- fmt / errors
 	ext["fmt.Sprintf"] = func(fr *frame, a []value) (value, bool) { return fr.i.sprintf(a[0], a[1].([]value)), true }
 	ext["fmt.Errorf"] = func(fr *frame, a []value) (value, bool) { return fr.i.errorf(a[0], a[1].([]value)), true }
+	fprint := func(fr *frame, w value, text value) value {
+		// formatting is not the subject of any property: the text is an opaque stand-in
+		it := w.(iface)
+		if it.t == nil {
+			panic(nilDeref())
+		}
+		m := fr.i.prog.LookupMethod(it.t, nil, "Write")
+		if m == nil {
+			abort("fmt.Fprint*: writer %v has no Write", it.t)
+		}
+		str, _ := text.(string)
+		return call(fr.i, fr, 0, m, []value{it.v, strBytes(str)})
+	}
+	ext["fmt.Fprintf"] = func(fr *frame, a []value) (value, bool) {
+		return fprint(fr, a[0], fr.i.sprintf(a[1], a[2].([]value))), true
+	}
+	ext["fmt.Fprintln"] = func(fr *frame, a []value) (value, bool) {
+		return fprint(fr, a[0], fr.i.sprintf("%v\n", a[1].([]value))), true
+	}
+	ext["fmt.Fprint"] = func(fr *frame, a []value) (value, bool) {
+		return fprint(fr, a[0], fr.i.sprintf("%v", a[1].([]value))), true
+	}
 	ext["fmt.Sprint"] = func(fr *frame, a []value) (value, bool) { return fr.i.sprintf("%v", a[0].([]value)), true }
 	ext["errors.Is"] = func(fr *frame, a []value) (value, bool) { return fr.i.errorsIs(fr, a[0].(iface), a[1].(iface), 0), true }
 
